@@ -114,8 +114,8 @@ theorem xdef_f13 {S c : Nat} {g0 t : List Nat} (hg0 : ExprText.IsBlanks g0) (hle
       simp [List.isPrefixOf, this])
   have h1 := Ev.seq_fail2 h32 hskg h40 (d := g0.length + 40)
   have h31 := evr (gr31 text) (by omega)
-    (Ev.seq_fail1 (Ev.seq_fail1 (Ev.seq_fail1 h1 (d := g0.length + 41)
-      (b := .star (.ref 41))) (d := g0.length + 42) (b := .star (.seq (.str [44]) (.ref 41))))
+    (Ev.seq_fail1 (Ev.seq_fail1 h1 (d := g0.length + 41)
+      (b := .opt (.seq (.ref 41) (.star (.seq (.str [44]) (.ref 41))))))
       (d := g0.length + 43) (b := .str [41])) (d := g0.length + 44) (at_ := .nonAtomic)
   exact (evr (xdef_gr13 text) (by omega) (Ev.seq_fail2 h37 hsk1 h31 (d := g0.length + 46))
     (d := g0.length + 47) (at_ := .nonAtomic)).mono (by omega)
